@@ -11,7 +11,7 @@ date first and the dependent is re-evaluated afterwards (C03).
 
 class Rec:
     __slots__ = ('built', 'failed', 'exists', 'who', 'seen', 'outver', 'content', 'always', 'watch_absent',
-                 'built_run', 'owner', 'phony', 'stamped', 'removed_mark', 'removed_run', 'extra')
+                 'built_run', 'owner', 'phony', 'stamped', 'removed_mark', 'removed_run', 'extra', 'user_seen')
 
     def __init__(self):
         self.built = False        # a build has been attempted and recorded
@@ -29,6 +29,7 @@ class Rec:
         self.stamped = False
         self.removed_mark = False  # the user removed the produced file and it has not been rebuilt yet
         self.removed_run = -1      # run in which it was rebuilt after such a removal
+        self.user_seen = False     # a command has met the user's version of this file
         self.extra = {}            # checksummed targets redo built out of band on behalf of this target's script -> version
 
     def copy(self):
@@ -66,7 +67,9 @@ class Model:
         r.exists = False
         if r.owner == 'user':
             r.owner = 'none'
-            self.touch_src(name)
+            if r.user_seen:
+                r.content = None      # redo has seen foreign content: whatever it generates next is a change
+            r.user_seen = False
         elif r.built and not r.phony:
             r.removed_mark = True
 
@@ -83,7 +86,8 @@ class Model:
 
     def ver(self, n):
         if n in self.R:
-            return (self.R[n].outver, self.srcver.get(n, 0))
+            r = self.R[n]
+            return (r.outver, self.srcver.get(n, 0) if r.owner == 'user' else 0)
         return self.srcver.get(n, 0)
 
     # ---- pure evaluation
@@ -177,7 +181,11 @@ class Model:
     def update(self, n, ctx, forced=False):
         """Bring `n` up to date.  Returns ok."""
         if not self.is_target(n):
+            if n in self.R:
+                self.R[n].user_seen = True
             return True
+        if n in ctx['done'] and forced and ctx['done'][n]:
+            ctx['rechecked'].add(n)      # force-rebuilt after it was already checked in this run
         if n in ctx['done'] and not forced:
             o = self.p.targets[n].get('opt')
             if not (ctx['done'][n] and o and self.is_target(o) and self.R[o].failed):
@@ -246,12 +254,13 @@ class Model:
                     if not wr:
                         continue
                     ctx['ambiguous'].add(d)
-                    if ctx['obs'] is None or not (wr & ctx['obs']):
+                    if not self.observed_more(ctx, wr):
                         continue
                 if not self.update(d, ctx):
                     failed_known = True
             if failed_known:
-                ctx['done'][n] = False       # n's script does not run; n is not up to date
+                # n's script does not run and n is not up to date; a later request in the same run sees the
+                # failed dependency as definitely dirty and does execute n
                 ctx['notrun_failed'].add(n)
                 return False
             s, why = self.status(n, ctx, {}, forced)
@@ -263,6 +272,7 @@ class Model:
         p, r = self.p, self.R[n]
         ctx['ran'].append(n)
         ctx['reasons'][n] = why
+        ctx['why_list'].append((n, why))
         ctx['done'][n] = False       # a re-request while running / after failing counts as failed
         ctx['stack'].append(n)
         try:
@@ -299,7 +309,7 @@ class Model:
                     if not wr:
                         continue
                     ctx['ambiguous'].add(d)
-                    if ctx['obs'] is None or not (wr & ctx['obs']):
+                    if not self.observed_more(ctx, wr):
                         continue
                 if t.get('split') and failed_known:
                     break
@@ -337,7 +347,7 @@ class Model:
         r.stamped = bool(t.get('stamp'))
         r.content = content
         for dn, dr in self.R.items():
-            if dn != n and ctx['done'].get(dn) is True and n in dr.seen and dr.seen[n] != self.ver(n):
+            if dn != n and n in dr.seen and dr.seen[n] != self.ver(n) and (ctx['done'].get(dn) is True or n in ctx['rechecked']):
                 ctx['late'].add((dn, n))
         r.seen = seen
         r.extra = {e: self.ver(e) for e in ctx['extra_new'].pop(n, ()) if e not in seen}
@@ -352,14 +362,26 @@ class Model:
         m.update(n, c)
         return set(c['ran'])
 
+    @staticmethod
+    def observed_more(ctx, names):
+        """Did the observation execute one of `names` more often than the model has accounted for so far?"""
+        if ctx['obs'] is None:
+            return False
+        cnt = ctx.get('obsn') or {}
+        for x in names:
+            if x in ctx['obs'] and cnt.get(x, 1) > ctx['ran'].count(x):
+                return True
+        return False
+
     def new_ctx(self, keep=False, obs=None):
         return dict(ran=[], done={}, keep=keep, obs=obs, reasons={}, ambiguous=set(), maybe=set(),
-                    notrun_failed=set(), late=set(), stack=[], extra_new={})
+                    notrun_failed=set(), late=set(), stack=[], extra_new={}, why_list=[], rechecked=set())
 
-    def command(self, targets, forced=False, keep=False, obs=None):
+    def command(self, targets, forced=False, keep=False, obs=None, obsn=None):
         """One top-level `redo-ifchange targets...` (or `redo` when forced).  Returns (ok, ctx)."""
         self.run += 1
         ctx = self.new_ctx(keep, obs)
+        ctx['obsn'] = obsn
         self.cur_ctx = ctx
         allok = True
         failed_known = False
@@ -369,7 +391,7 @@ class Model:
                 if not wr and not forced:
                     continue
                 ctx['ambiguous'].add(t)
-                if obs is None or not ((wr | {t}) & obs):
+                if not self.observed_more(ctx, wr | {t}):
                     continue
             ok = self.update(t, ctx, forced=forced)
             if not ok:
